@@ -27,7 +27,7 @@ def main():
         return 2
     ran = {}
     try:
-        env = dict(os.environ, PYTHONPATH=wt)
+        env = dict(os.environ, PYTHONPATH=wt, OMP_NUM_THREADS='1', MKL_NUM_THREADS='1', OPENBLAS_NUM_THREADS='1')
         env.pop('DEEPROB_KIT_VERIF', None)
         d0 = sh(f'cd {wt} && timeout 1800 /venv/bin/python {src}/demo.py', env=env)
         ran['demo_without_change'] = dict(rc=d0.returncode, tail=d0.stdout[-400:])
